@@ -61,12 +61,11 @@ func c15ListingFilter(c *kit.Ctx, r5 *kit.Rule) {
 		edgesVar = kit.ObjOf(info, as.Lhs[0])
 	}
 	var loop *ast.RangeStmt
-	ast.Inspect(f.Body, func(n ast.Node) bool {
-		if rs, ok := n.(*ast.RangeStmt); ok && loop == nil && edgesVar != nil && kit.ObjOf(info, rs.X) == edgesVar {
+	for _, rs := range f.SliceLoops(f.Body) {
+		if loop == nil && edgesVar != nil && kit.ObjOf(info, rs.X) == edgesVar {
 			loop = rs
 		}
-		return true
-	})
+	}
 	if loop == nil {
 		r5.Ob(f, nil, "store listing loop", "exists").Undecided("no range over the queried edges in %s", f.Name)
 		return
